@@ -1,6 +1,6 @@
 (* C07 - Seal then unseal is lossless for every token, key algorithm and codec. *)
 From Coq Require Import String.
-Require Import Base Node Cbor CborProofs Did DidProofs Generated Policy PolicyIpld Envelope Token TokenProofs SealProofs SealedBytes CanonProofs SealBytesProofs Args ArgsProofs DagJson DagJsonProofs.
+Require Import Base Node Cbor CborProofs Did DidProofs Generated Policy PolicyIpld Envelope Token TokenProofs SealProofs SealedBytes CanonProofs SealBytesProofs Args ArgsProofs DagJson DagJsonProofs JsonSealProofs.
 Local Open Scope N_scope.
 
 (* go-ucan's own mapping: token -> payload node -> token is the identity on everything a constructor
@@ -116,3 +116,32 @@ Print Assumptions C07_dagjson_roundtrip_refuted_on_invalid_utf8.
 Theorem C07_dagjson_roundtrip_refuted_on_reserved_key : exists x y, jdec 2 (jenc x) = Some (y, []) /\ y <> canonj x.
 Proof. exact json_reserves_the_slash_key. Qed.
 Print Assumptions C07_dagjson_roundtrip_refuted_on_reserved_key.
+
+(* ---- seal -> DAG-JSON text -> unseal, down to the characters: the envelope a token is sealed into, written by
+   the JSON encoder and read back by the reference decoder, passes the envelope checks (the signature is verified
+   over the DAG-CBOR re-encoding of what was read, which does not see that JSON lists keys in another order) and
+   yields a token that agrees with the sealed one on every field, maps compared up to the order of their entries.
+   Premises: the sealed value is inside the codec's lossless domain ([jsafe]: no floats, UTF-8 text, no key "/"),
+   no map repeats a key, decoder depth budget, and the signature scheme verifies what it signed. ---- *)
+Theorem C07_delegation_seal_json_unseal : forall verify header_of sign t hdr f,
+  dlg_constructed t -> header_of (dk_iss t) = Ok hdr -> (forall m, verify (dk_iss t) m (sign m) = true) ->
+  jsafe (env_seal sign hdr dlg_tag (dlg_to_payload t)) -> keys_distinct (env_seal sign hdr dlg_tag (dlg_to_payload t)) ->
+  (jdepth (env_seal sign hdr dlg_tag (dlg_to_payload t)) <= f)%nat ->
+  exists t', from_json verify header_of dtok dlg_from_payload dlg_tag f (to_json sign hdr dlg_tag (dlg_to_payload t)) = Ok t'
+             /\ canon_dtok t' = canon_dtok t.
+Proof. exact dlg_seal_json_unseal. Qed.
+Print Assumptions C07_delegation_seal_json_unseal.
+
+Theorem C07_invocation_seal_json_unseal : forall verify header_of sign t hdr f,
+  inv_constructed t -> header_of (ik_iss t) = Ok hdr -> (forall m, verify (ik_iss t) m (sign m) = true) ->
+  jsafe (env_seal sign hdr inv_tag (inv_to_payload t)) -> keys_distinct (env_seal sign hdr inv_tag (inv_to_payload t)) ->
+  (jdepth (env_seal sign hdr inv_tag (inv_to_payload t)) <= f)%nat ->
+  exists t', from_json verify header_of itok inv_from_payload inv_tag f (to_json sign hdr inv_tag (inv_to_payload t)) = Ok t'
+             /\ canon_itok t' = canon_itok t.
+Proof. exact inv_seal_json_unseal. Qed.
+Print Assumptions C07_invocation_seal_json_unseal.
+
+(* the DAG-CBOR bytes of a value do not depend on the order JSON gave its maps *)
+Theorem C07_cbor_bytes_ignore_json_order : forall x, keys_distinct x -> encode (canonj x) = encode x.
+Proof. exact encode_canonj. Qed.
+Print Assumptions C07_cbor_bytes_ignore_json_order.
